@@ -24,7 +24,8 @@ FOREIGN = ["types.tsx", "mytypes.ts", "types.ts.bak", "Types.ts", "generated.ts"
            "types", "index", "models", "commands", "bindings", "schemas", "events", "types.ts~", "types.js", "index.mjs", "custom.ts", "helpers/util.ts",
            "sub/types.ts", "sub/generated_x.ts", "sub/.typecache", "dependency-graph.svg", "dependency-graph", "typecache", ".typecache.lock", "events.tsx",
            "commands.ts.orig", "my_events.ts", "api.ts", "node_modules/pkg/index.ts", "generatedx.ts", "x.generated.ts", ".write_test", ".write_test2", "write_test",
-           "tsconfig.json", "index.d.mts", "types.d.tsx", ".hidden/commands.ts", "bindings/index.ts"]
+           "tsconfig.json", "index.d.mts", "types.d.tsx", ".hidden/commands.ts", "bindings/index.ts",
+           ".typecache.unreadable", ".typecache.bak", ".typecache.corrupt", ".typecache~", "types.ts.unreadable", ".typecache.tmp"]
 RESERVED_STALE = ["schemas.ts", "models.ts", "bindings.d.ts", "generated_old.ts", "foo_generated.ts", "events.ts", "types.d.ts", "index.d.ts"]
 
 
@@ -112,6 +113,15 @@ def run_case(a):
                     planted += [os.path.join(outnorm, dname, "NOTES.md"), os.path.join(outnorm, dname, "drafts/handwritten.md")]
                 except OSError:
                     pass
+        if idx % 6 == 2 and os.path.isdir(os.path.join(root, outnorm)) and not os.path.lexists(os.path.join(root, outnorm, ".typecache")):
+            # the cache record of an earlier run is there but unusable (cut short, another version's shape, not JSON at all): the
+            # tool's own file to replace — and nothing is to appear beside it under another name
+            open(os.path.join(root, outnorm, ".typecache"), "w").write(['{"version":1,"commands_ha', "{}", "not json at all", '{"version":"one"}', "[]", ""][(idx // 6) % 6])
+            for extra in (".typecache.unreadable", ".typecache.bak"):
+                ep = os.path.join(root, outnorm, extra)
+                if not os.path.lexists(ep):
+                    open(ep, "w").write("a note somebody keeps here: %s" % extra)
+                    planted.append(os.path.join(outnorm, extra))
         st["foreign_planted"] = len(planted)
         preexisting = {p for p in planted}
         path = rnd.choice(["cli", "cli-rel", "cli-rel-deep", "build", "build-member", "init", "cli-config", "init-custom", "init-dotslash", "cli-flags-over-config", "cli-flags-over-config",
